@@ -155,6 +155,11 @@ func runAlone(p Program, e *runEnv) results {
 	out := results{res: make([][][]byte, n), panics: make([][]string, n)}
 	runPrologue(p, e, &out)
 	for g, ops := range p.Goroutines {
+		if g > 0 && len(ops) > 0 && len(p.Goroutines[g-1]) == len(ops) && &p.Goroutines[g-1][0] == &ops[0] {
+			// the very same list as the previous goroutine (first-touch programs): same results
+			out.res[g], out.panics[g] = out.res[g-1], out.panics[g-1]
+			continue
+		}
 		st := e.state()
 		res := make([][]byte, len(ops))
 		pan := make([]string, len(ops))
@@ -242,6 +247,13 @@ func checkProgram(t ev.TB, orig Program) {
 		shared.naxes[i] = len(pf.axes)
 		shared.data[i] = pf.data
 		alone.pool[i] = pf.ref
+		for j := 0; j < i; j++ {
+			if alone.pool[j] == pf.ref { // the same file twice (hand-written replays): distinct instances
+				if ft, _, err := parseFont(pf.data, pf.Index); err == nil {
+					alone.pool[i] = ft
+				}
+			}
+		}
 		// a freshly parsed instance: whatever the library may fill lazily on a Font is first
 		// touched by the concurrent run
 		ft, _, err := parseFont(pf.data, pf.Index)
@@ -305,6 +317,8 @@ func contention(p Program) []int {
 	return cnt
 }
 
+func contains(kinds map[string]int64, k string) bool { return kinds[k] > 0 }
+
 func record(p Program) {
 	cnt := contention(p)
 	nt := false
@@ -345,6 +359,12 @@ func record(p Program) {
 		}
 	}
 	labels = append(labels, fmt.Sprintf("pool-size=%d", len(p.Pool)))
+	if g := p.Goroutines; len(g) > 1 && len(g[0]) > 0 && g[0][0].K == kProbe || contains(kinds, kProbe) {
+		labels = append(labels, "centred-on-a-c13-class")
+		if g := p.Goroutines; len(g) > 1 && len(g[0]) > 0 && len(g[1]) > 0 && g[0][0].K == kProbe && g[1][0].K == kProbe {
+			labels = append(labels, "same-first-probe-in-every-goroutine")
+		}
+	}
 	key, _ := json.Marshal(p)
 	ev.Case(nt, key, labels...)
 	if ev.WantSample() {
@@ -446,7 +466,10 @@ func genFeats(t *rapid.T, pf *poolFont) []Feat {
 	var out []Feat
 	for i := 0; i < n; i++ {
 		var tag string
-		if len(pf.features) > 0 && rapid.IntRange(0, 3).Draw(t, "ownfeat") > 0 {
+		if pf.aat && rapid.IntRange(0, 2).Draw(t, "aatfeat") > 0 {
+			// a feature tag harfbuzz maps to an AAT feature setting
+			tag = rapid.SampledFrom(aatTags).Draw(t, "aattag")
+		} else if len(pf.features) > 0 && rapid.IntRange(0, 3).Draw(t, "ownfeat") > 0 {
 			tag = rapid.SampledFrom(pf.features).Draw(t, "fontfeat")
 		} else {
 			tag = rapid.SampledFrom(features).Draw(t, "feat")
@@ -760,6 +783,45 @@ func genProgram(t *rapid.T, cands [][]*poolFont) Program {
 		t.Fatalf("INFRASTRUCTURE: %v", err)
 	}
 	pool = append(pool, synth...)
+	// Half of the programs are centred on a coverage class of the C13 index: the font of one of
+	// its probes joins the pool and becomes the favoured font; the goroutines shape the probe
+	// inputs of that font (inputs verified to take the class's path), often all of them the same
+	// input as their first operation.
+	probeFont, classProbe := -1, -1
+	var fontProbes []int
+	if idx, _ := loadClassIndex(); idx != nil && len(idx.names) > 0 && rapid.IntRange(0, 1).Draw(t, "probeprogram") == 0 {
+		class := rapid.SampledFrom(idx.names).Draw(t, "class")
+		pi := rapid.SampledFrom(idx.classes[class]).Draw(t, "classprobe")
+		pr := &idx.probes[pi]
+		if c := probeCost(idx, pi); c >= 0 && c <= explosive {
+			if pf, err := loadEntry(PoolEntry{Kind: "probe", File: pr.Font.File, Index: pr.Font.Index}); err == nil {
+				// (the font may be in the pool already: the pool never holds a file twice)
+				for i, q := range pool {
+					if q == pf {
+						probeFont = i
+					}
+				}
+				if probeFont < 0 {
+					pool = append(pool, pf)
+					probeFont = len(pool) - 1
+				}
+				classProbe = pi
+				for _, i := range idx.byFont[fmt.Sprintf("%s#%d", pr.Font.File, pr.Font.Index)] {
+					if c := probeCost(idx, i); c >= 0 && c <= explosive {
+						fontProbes = append(fontProbes, i)
+					}
+				}
+			}
+		}
+	}
+	genProbeOp := func(i int) Op {
+		idx, _ := loadClassIndex()
+		op := probeOp(&idx.probes[i], probeFont)
+		if rapid.IntRange(0, 2).Draw(t, "probeextra") == 0 {
+			op.Feat = append(append([]Feat(nil), op.Feat...), genFeats(t, pool[probeFont])...)
+		}
+		return op
+	}
 	for _, pf := range pool {
 		p.Pool = append(p.Pool, pf.PoolEntry)
 	}
@@ -771,6 +833,15 @@ func genProgram(t *rapid.T, cands [][]*poolFont) Program {
 	hot2 := rapid.IntRange(0, len(pool)-1).Draw(t, "hotfont2")
 	if len(synth) > 0 {
 		hot2 = len(pool) - 1 // a synthetic font is always one of the two favoured fonts
+	}
+	sameFirst := false
+	if probeFont >= 0 {
+		hot = probeFont
+		sameFirst = rapid.IntRange(0, 1).Draw(t, "samefirst") == 0
+	}
+	var firstOp Op
+	if sameFirst {
+		firstOp = genProbeOp(classProbe)
 	}
 	pick := func() int {
 		switch k := rapid.IntRange(0, 9).Draw(t, "fontkind"); {
@@ -798,12 +869,28 @@ func genProgram(t *rapid.T, cands [][]*poolFont) Program {
 		k := maxOps - rapid.IntRange(0, maxOps-1).Draw(t, "fewerops")
 		ops := make([]Op, 0, k+1)
 		for i := 0; i < k; i++ {
+			if sameFirst && i == 0 {
+				ops = append(ops, firstOp) // every goroutine starts with the same probe input
+				continue
+			}
 			if g < 2 && i == 0 {
 				// by construction at least two goroutines decode outlines of / shape with the hot font
 				ops = append(ops, genOp(t, pool, rapid.SampledFrom(heavyOps).Draw(t, "heavyop"), hot))
 				continue
 			}
 			kind, f := rapid.SampledFrom(opKinds).Draw(t, "op"), pick()
+			if f == probeFont && heavy(Op{K: kind}) && rapid.IntRange(0, 3).Draw(t, "useprobe") != 0 {
+				i := classProbe
+				if rapid.IntRange(0, 1).Draw(t, "otherprobe") == 0 {
+					i = rapid.SampledFrom(fontProbes).Draw(t, "fontprobe")
+				}
+				op := genProbeOp(i)
+				if rapid.IntRange(0, 1).Draw(t, "yields") == 1 {
+					op.Y = rapid.IntRange(1, 4).Draw(t, "yield")
+				}
+				ops = append(ops, op)
+				continue
+			}
 			if (kind == kParse || kind == kParseDmg) && len(pool[f].data) > bigFile && rapid.IntRange(0, 3).Draw(t, "bigparse") != 0 {
 				kind = kOutline // loading a large file takes tens of milliseconds under -race: less often
 			}
@@ -869,6 +956,25 @@ func loadProgram(t *testing.T, path string) Program {
 }
 
 func replayFile(t *testing.T, path string) {
+	if check, raw, err := ev.LoadReplay(path); err == nil && check == "unit" {
+		// a first-touch unit: its child process, several times
+		var u unit
+		if err := json.Unmarshal(raw, &u); err != nil {
+			t.Fatalf("replay %s: cannot decode the unit: %v", path, err)
+		}
+		exe, _ := os.Executable()
+		for i := 0; i < replayProcesses; i++ {
+			cmd := exec.Command(exe, "-test.run", "^TestFirstTouchChild$", "-test.timeout", "240s")
+			cmd.Env = append(os.Environ(), unitEnv+"="+string(raw), "VERIF_OUT=", cacheDirEnv+"="+fontIndexDir)
+			if outp, err := cmd.CombinedOutput(); err != nil {
+				if len(outp) > 2200 {
+					outp = outp[:2200]
+				}
+				ev.Fail(t, "unit", u, "first-touch process failed again (%v):\n%s", err, outp)
+			}
+		}
+		return
+	}
 	p := loadProgram(t, path)
 	if os.Getenv(replayChildEnv) != "" {
 		// a reported race ends the process with exit code 66, a differing result fails the test
